@@ -96,6 +96,21 @@ func init() {
 				{File: "internal/embed/embed.go", Old: "\tfooter := make([]byte, FooterSize)\n\tbinary.LittleEndian.PutUint64(footer[:8], uint64(len(xorConfig)))\n\tcopy(footer[8:], Magic[:])\n", New: "\tfooter := makeFooter(len(xorConfig))\n"},
 				{File: "internal/embed/embed.go", Old: "// GetOriginalBinarySize returns the size", New: "func makeFooter(n int) []byte {\n\tbuf := make([]byte, 0, FooterSize)\n\tbuf = binary.LittleEndian.AppendUint64(buf, uint64(n))\n\treturn append(buf, Magic[:]...)\n}\n\n// GetOriginalBinarySize returns the size"},
 			}},
+			{Name: "destination opened without O_TRUNC (stale tail of a longer existing file survives)", ExpectRule: "C36.R5", ExpectKey: "AppendConfig", Edits: []Edit{
+				{File: "internal/embed/embed.go", Old: "os.O_CREATE|os.O_WRONLY|os.O_TRUNC", New: "os.O_CREATE|os.O_WRONLY"},
+			}},
+			{Name: "destination opened with O_APPEND instead of O_TRUNC", ExpectRule: "C36.R5", ExpectKey: "AppendConfig", Edits: []Edit{
+				{File: "internal/embed/embed.go", Old: "os.O_CREATE|os.O_WRONLY|os.O_TRUNC", New: "os.O_CREATE|os.O_WRONLY|os.O_APPEND"},
+			}},
+			{Name: "rewrite: destination made with os.Create and chmod", Edits: []Edit{
+				{File: "internal/embed/embed.go", Old: "\tout, err := os.OpenFile(dstBinary, os.O_CREATE|os.O_WRONLY|os.O_TRUNC, srcStat.Mode())\n", New: "\tout, err := os.Create(dstBinary)\n\tif err == nil {\n\t\terr = out.Chmod(srcStat.Mode())\n\t}\n"},
+			}},
+			{Name: "rewrite: destination opened without O_TRUNC but truncated to empty before writing", Edits: []Edit{
+				{File: "internal/embed/embed.go", Old: "\tout, err := os.OpenFile(dstBinary, os.O_CREATE|os.O_WRONLY|os.O_TRUNC, srcStat.Mode())\n\tif err != nil {\n\t\treturn fmt.Errorf(\"failed to create output file: %w\", err)\n\t}\n\tdefer out.Close()\n", New: "\tout, err := os.OpenFile(dstBinary, os.O_CREATE|os.O_WRONLY, srcStat.Mode())\n\tif err != nil {\n\t\treturn fmt.Errorf(\"failed to create output file: %w\", err)\n\t}\n\tdefer out.Close()\n\tif err := out.Truncate(0); err != nil {\n\t\treturn err\n\t}\n"},
+			}},
+			{Name: "rewrite: image written to a temp file that is renamed over the destination", Edits: []Edit{
+				{File: "internal/embed/embed.go", Old: "\tout, err := os.OpenFile(dstBinary, os.O_CREATE|os.O_WRONLY|os.O_TRUNC, srcStat.Mode())\n\tif err != nil {\n\t\treturn fmt.Errorf(\"failed to create output file: %w\", err)\n\t}\n\tdefer out.Close()\n", New: "\tout, err := os.CreateTemp(filepath.Dir(dstBinary), \".embed-*\")\n\tif err != nil {\n\t\treturn fmt.Errorf(\"failed to create output file: %w\", err)\n\t}\n\tdefer out.Close()\n\tdefer os.Rename(out.Name(), dstBinary)\n\t_ = srcStat\n"},
+			}},
 			{Name: "rewrite: reject via <=, signed check with non-negativity test, helper constant", Edits: []Edit{
 				{File: "internal/embed/embed.go", Old: "\tif configLen > uint64(fileSize-FooterSize) {\n\t\treturn nil, ErrConfigTooLarge\n\t}", New: "\tif maxLen := uint64(fileSize - FooterSize); !(configLen <= maxLen) {\n\t\treturn nil, ErrConfigTooLarge\n\t}"},
 				{File: "internal/embed/embed.go", Old: "\tif configLen > uint64(fileSize-FooterSize) {\n\t\treturn 0, ErrConfigTooLarge\n\t}\n\treturn fileSize - FooterSize - int64(configLen), nil", New: "\tn := int64(configLen)\n\tif n < 0 || fileSize-FooterSize < n {\n\t\treturn 0, ErrConfigTooLarge\n\t}\n\treturn fileSize - FooterSize - n, nil"},
@@ -384,6 +399,7 @@ func c36BufLen(root ssa.Value) (int64, bool) {
 func runC36(p *kit.Program, r *kit.Report) {
 	r.Rule("C36.R1", "every use of the decoded 64-bit footer length other than a comparison is dominated by a range check valid for all 2^64 values (unsigned comparison, or signed comparison plus non-negativity test) against a file-size-derived or small constant bound")
 	r.Rule("C36.R2", "writer and readers agree on the trailer layout: byte order, footer size, length and magic sub-slices, location of the config bytes, original-size formula, write order and the obfuscation function")
+	r.Rule("C36.R5", "every file the package opens for writing is created fresh or truncated, so that the file ends with what was written: os.Create, O_TRUNC, O_CREATE|O_EXCL, a temp file (CreateTemp), or an explicit Truncate on the handle before every successful return")
 	r.Rule("C36.R4", "a function that reads a file named by one path parameter and creates/truncates a file named by another path parameter finishes every read of the source before the destination is opened with truncation (the two may name the same file: in-place embed / strip)")
 	r.Rule("C36.R3", "no explicit panic/exit in the package; every allocation size is a constant, a len(), a file size, a validated footer length, or 'A - length' under a bound that keeps it non-negative")
 	const pkg = "internal/embed"
@@ -546,6 +562,9 @@ func runC36(p *kit.Program, r *kit.Report) {
 
 	// ---- R4: in-place safety
 	c36InPlace(p, r, fns)
+
+	// ---- R5: output files are created fresh or truncated
+	c36Truncated(p, r, fns)
 }
 
 // sizeOK classifies the value used as an allocation size at instruction at.
@@ -1329,4 +1348,92 @@ func c36Involution(p *kit.Program, r *kit.Report, fn *ssa.Function) {
 	r.Decide(bad == "", "C36.R2", kit.FuncName(fn)+" is an involution", p.Pos(fn.Pos()),
 		"every output byte is the input byte at the same index XOR a data-independent mask, so applying it twice is the identity",
 		bad+": applying the function on write and again on read does not give the configuration back")
+}
+
+// ---------- R5
+
+// c36Truncated: the readers locate the trailer from the END of the file, so a writer must not
+// leave bytes of a previous, longer file behind what it wrote.
+func c36Truncated(p *kit.Program, r *kit.Report, fns []*ssa.Function) {
+	flagVal := func(name string, def int64) int64 {
+		if pk := p.All["os"]; pk != nil && pk.Types != nil {
+			if c, ok := pk.Types.Scope().Lookup(name).(*types.Const); ok {
+				var v int64
+				if _, err := fmt.Sscanf(c.Val().ExactString(), "%d", &v); err == nil {
+					return v
+				}
+			}
+		}
+		return def
+	}
+	oWronly, oRdwr := flagVal("O_WRONLY", 1), flagVal("O_RDWR", 2)
+	oTrunc, oExcl, oCreate, oAppend := flagVal("O_TRUNC", 0x200), flagVal("O_EXCL", 0x80), flagVal("O_CREATE", 0x40), flagVal("O_APPEND", 0x400)
+	n := 0
+	for _, fn := range fns {
+		fname := kit.FuncName(fn)
+		ord := 0
+		for _, c := range kit.Calls(fn) {
+			cal := kit.CalleeOf(c)
+			if cal.Pkg != "os" || cal.Recv != "" || cal.Name != "OpenFile" {
+				continue
+			}
+			flag, isConst := kit.ConstInt(kit.Arg(c, 1))
+			if !isConst {
+				r.Infof("C36.R5", fname+" open with non-constant flags", p.Pos(c.Pos()), "flags are not a constant; not analysed")
+				continue
+			}
+			if flag&(oWronly|oRdwr) == 0 {
+				continue // read-only
+			}
+			n++
+			ord++
+			key := fmt.Sprintf("%s output file #%d", fname, ord)
+			ok, how := false, ""
+			switch {
+			case flag&oTrunc != 0:
+				ok, how = true, "opened with O_TRUNC"
+			case flag&oExcl != 0 && flag&oCreate != 0:
+				ok, how = true, "created exclusively (O_CREATE|O_EXCL): the file did not exist"
+			default:
+				// an explicit Truncate on the handle before every successful return
+				call, isCall := c.(*ssa.Call)
+				var h ssa.Value
+				if isCall {
+					h = kit.ExtractOf(call, 0)
+				}
+				var truncs []ssa.Instruction
+				if h != nil && h.Referrers() != nil {
+					for _, ref := range *h.Referrers() {
+						if tc, isTC := ref.(*ssa.Call); isTC && kit.CalleeOf(tc).Name == "Truncate" && kit.Receiver(tc) == h {
+							truncs = append(truncs, tc)
+						}
+					}
+				}
+				if len(truncs) > 0 {
+					ok, how = true, "truncated explicitly through the handle"
+					for _, ret := range kit.Returns(fn) {
+						if ret.Block() == fn.Recover || !kit.CanReach(c, ret) || !kit.ReturnsNilError(ret) {
+							continue
+						}
+						dominated := false
+						for _, t := range truncs {
+							if kit.Precedes(t, ret) {
+								dominated = true
+							}
+						}
+						if !dominated {
+							ok = false
+						}
+					}
+				}
+			}
+			what := "without O_TRUNC"
+			if flag&oAppend != 0 {
+				what = "with O_APPEND and without O_TRUNC"
+			}
+			r.Decide(ok, "C36.R5", key, p.Pos(c.Pos()), "the output file is "+how,
+				"the output file is opened for writing "+what+" (flags "+fmt.Sprintf("%#x", flag)+") and never truncated: when the destination already exists and is longer than what is written, the old tail (including an old footer) stays at the end of the file, and the readers, which locate the trailer from the end, return a stale or garbled configuration / original size")
+		}
+	}
+	r.Count("files_opened_for_writing_with_OpenFile", n)
 }
